@@ -1045,6 +1045,18 @@ fn geo_part(rep: &mut Report, rng: &mut Rng, exhaustive_small: bool, n: usize) {
 fn run_case(cx: &CaseCtx, rep: &mut Report) {
 	let mut rng = cx.rng();
 	let case = cx.case;
+	if cx.tier.is_tiny() {
+		// interpreter flavour: the exhaustive laws of zoom 0..2, pairs of zoom 0..1, a few samples
+		for z in 0..3 {
+			unary_laws(z, rep);
+		}
+		for z in 0..2 {
+			pair_laws(z, None, rep);
+		}
+		sampled_laws(rep, &mut rng, 40);
+		geo_part(rep, &mut rng, false, 20);
+		return;
+	}
 	if case == 0 {
 		cx.progress("unary z0..3 + pairs z0..2 + pyramids");
 		for z in 0..4 {
